@@ -522,7 +522,13 @@ class UncertainReal(object):
         if r == 0.0: return 
         
         if isinstance(x,UncertainReal):
-            if (
+            if self._node is None or x._node is None:
+                # An intermediate result has no node (it is not elementary)
+                raise TypeError(
+                    "Arguments must be elementary uncertain numbers, \
+                    got: {!r} and {!r}".format(self,x)
+                )
+            elif (
                 math.isinf( self._node.df ) and
                 math.isinf( x._node.df )
             ):
